@@ -81,6 +81,50 @@ def sc_banner(w, kind, n_up):
                 listener="http" if kind == "http" else "socks", banner_ok=got.startswith(BANNER))
 
 
+def stall_origin(c, a, rec):
+    """does not read for a second (its small receive buffer fills, the proxy's writes towards it become partial),
+    then reads to the end of the stream; or, asked with the first byte 'D', sends that many bytes while the client stalls"""
+    first = e2e.recv_exact(c, 1, timeout=5)
+    if first == b"D":
+        n = int(e2e.recv_exact(c, 8, timeout=5))
+        c.sendall(b"d" * n)
+        c.shutdown(socket.SHUT_WR)
+        e2e.recv_all(c, timeout=20)
+        return
+    time.sleep(1.0)
+    got, how = e2e.recv_all(c, timeout=10, limit=1 << 30)
+    rec["n"] = len(first) + len(got)
+
+
+def sc_stalled(w, upload, n):
+    """3-6 MB towards a receiver that stalls for a second: the bytes counted must be the bytes relayed"""
+    port = w["org3"].port
+    c = socket.socket()
+    c.setsockopt(socket.SOL_SOCKET, socket.SO_RCVBUF, 8192)
+    c.settimeout(30)
+    c.connect((LOOP, w["lp"]["http"]))
+    c.sendall(b"CONNECT %s:%d HTTP/1.1\r\n\r\n" % (LOOP.encode(), port))
+    head = e2e.recv_exact(c, 39)
+    src = "%s:%d" % c.getsockname()
+    if not head.startswith(b"HTTP/1.1 200"):
+        e2e.close_quiet(c)
+        return dict(cls="setup-failed", source=src, kind="http")
+    if upload:
+        c.sendall(b"U" + b"u" * (n - 1))
+        c.shutdown(socket.SHUT_WR)
+        e2e.recv_all(c, timeout=20)
+        up, down = n, 0
+    else:
+        c.sendall(b"D%08d" % n)
+        time.sleep(1.0)
+        got, how = e2e.recv_all(c, timeout=20, limit=1 << 30)
+        up, down = 9, len(got)
+        c.shutdown(socket.SHUT_WR)
+    e2e.close_quiet(c)
+    return dict(cls="finished", source=src, kind="http-stalled-%s" % ("origin" if upload else "client"), up=up, down=down, target="%s:%d" % (LOOP, port), connector="direct",
+                client_first=upload, listener="http")
+
+
 def sc_denied(w, kind):
     if kind == "http":
         c, head, extra = e2e.http_connect(w["lp"]["http"], "%s:9" % LOOP)
@@ -158,11 +202,13 @@ def run_world(rep, driver, model, r, tier, splice, hsize, n_eval, dist):
     listeners = [{"name": "http", "bind": "%s:%d" % (LOOP, lp["http"])}, {"name": "socks", "bind": "%s:%d" % (LOOP, lp["socks"])},
                  {"name": "rev", "type": "reverse", "bind": "%s:%d" % (LOOP, lp["rev"]), "target": "%s:%d" % (LOOP, org.port)}]
     org2 = e2e.Server(e2e.echo_handler)
+    org3 = e2e.Server(stall_origin)
+    org3.sock.setsockopt(socket.SOL_SOCKET, socket.SO_RCVBUF, 8192)      # inherited by the accepted connections
     upsrv = e2e.Server(e2e.http_upstream(verdict=b"HTTP/1.1 200 OK\r\n\r\n" + BANNER, relay_to=(LOOP, org2.port)))
     p = e2e.Proxy(driver, listeners, [{"name": "direct"}, {"name": "up", "type": "http", "server": LOOP, "port": upsrv.port}],
                   [{"filter": "request.target.port == 9", "target": "deny"}, {"filter": "request.target.port == %d" % org2.port, "target": "up"}, {"target": "direct"}],
                   metrics=True, access_log=True, name="c16-%s-%d" % ("s" if splice else "b", hsize), history=hsize, io={"useSplice": splice, "bufferSize": 65536})
-    w = {"org": org, "org2": org2, "closed": closed, "lp": lp}
+    w = {"org": org, "org2": org2, "org3": org3, "closed": closed, "lp": lp}
     io = [splice, hsize]
     try:
         p.start()
@@ -186,6 +232,11 @@ def run_world(rep, driver, model, r, tier, splice, hsize, n_eval, dist):
                 jobs.append(lambda kind=r.choice(["http", "socks5"]), up=r.choice([1, 300]): sc_abort(w, kind, up))
             else:
                 jobs.append(lambda kind=r.choice(["http", "socks5"]), what=r.choice(["garbage", "partial", "nothing"]): sc_handshake_failed(w, kind, what))
+
+        for _ in range(3 if tier == "quick" else 12):
+            for upload in (True, False):
+                jobs.append(lambda upload=upload, nn=r.randrange(3_000_000, 6_000_000): sc_stalled(w, upload, nn))
+        r.shuffle(jobs)
 
         def guarded(j):
             try:
@@ -245,6 +296,7 @@ def run_world(rep, driver, model, r, tier, splice, hsize, n_eval, dist):
         p.stop()
         org.close()
         org2.close()
+        org3.close()
         upsrv.close()
         import shutil
         shutil.rmtree(p.dir, ignore_errors=True)
@@ -343,7 +395,7 @@ def run(tier, seed, replay=None):
         total += run_world(rep, driver, model, r, tier, splice, hsize, n_eval, dist)
     rep.coverage.update({
         "evaluations": n_eval[0], "distinct_nontrivial": total,
-        "rule": "per world (I/O mode x history size %s): 40 (thorough 300) connections from 8 threads on http / socks / reverse listeners: finished tunnels with 0..70000 bytes and early data, denied, refused by the origin, aborted by RST, handshake failures (garbage, partial, nothing), 4 tunnels held open for /api/live, a log rotation in the middle" % [w[1] for w in worlds],
+        "rule": "per world (I/O mode x history size %s): 40 (thorough 300) connections from 8 threads on http / socks / reverse listeners: finished tunnels with 0..70000 bytes and early data, denied, refused by the origin, aborted by RST, handshake failures (garbage, partial, nothing), 3-6 MB uploads / downloads towards a receiver that stalls for a second (partial writes and partial splices), 4 tunnels held open for /api/live, a log rotation in the middle" % [w[1] for w in worlds],
         "input_distribution": dict(dist),
     })
     rep.assumptions = ["access-log lines are read after POST /api/logrotate (the log writer buffers)", "client ports reused within one world are matched by count only"]
